@@ -111,6 +111,40 @@ def _simple_arg(e) -> bool:
     return False
 
 
+PURE_FUNCS = {"isinstance", "issubclass", "len", "hasattr", "type", "getattr", "bool", "int", "str", "tuple", "abs", "min", "max"}
+PURE_METHODS = {"startswith", "endswith", "get", "keys", "values", "items", "index", "count", "isdigit", "lower", "upper"}
+
+
+def _pure_expr(e) -> bool:
+    """expressions without side effects that may be moved to their (later) uses as long as what they read is stable"""
+    if isinstance(e, (ast.Name, ast.Constant)):
+        return True
+    if isinstance(e, ast.Attribute):
+        return _pure_expr(e.value)
+    if isinstance(e, ast.Subscript):
+        return _pure_expr(e.value) and _pure_expr(e.slice)
+    if isinstance(e, ast.Slice):
+        return all(x is None or _pure_expr(x) for x in (e.lower, e.upper, e.step))
+    if isinstance(e, ast.BoolOp):
+        return all(_pure_expr(v) for v in e.values)
+    if isinstance(e, ast.UnaryOp):
+        return _pure_expr(e.operand)
+    if isinstance(e, ast.BinOp):
+        return _pure_expr(e.left) and _pure_expr(e.right)
+    if isinstance(e, ast.Compare):
+        return _pure_expr(e.left) and all(_pure_expr(c) for c in e.comparators)
+    if isinstance(e, ast.IfExp):
+        return _pure_expr(e.test) and _pure_expr(e.body) and _pure_expr(e.orelse)
+    if isinstance(e, (ast.Tuple, ast.List)):
+        return all(_pure_expr(x) for x in e.elts)
+    if isinstance(e, ast.Call) and not e.keywords:
+        if isinstance(e.func, ast.Name) and e.func.id in PURE_FUNCS:
+            return all(_pure_expr(a) for a in e.args)
+        if isinstance(e.func, ast.Attribute) and e.func.attr in PURE_METHODS:
+            return _pure_expr(e.func.value) and all(_pure_expr(a) for a in e.args)
+    return False
+
+
 def _bind_params(fn, call: ast.Call, receiver: Optional[ast.expr], skip_first: bool) -> Optional[Dict[str, ast.expr]]:
     a = fn.args
     if a.vararg or a.kwarg or a.posonlyargs or a.kwonlyargs:
@@ -519,6 +553,51 @@ class ModuleNormalizer:
                     stmts[i - 1 : i + 1] = [new]
                     self.log.append(f"{q}: loop appending to {x} rewritten as a comprehension")
 
+    def _ifelse_assign_to_ifexp(self, q: str, node):
+        """`if c: x = a` / `else: x = b`  ->  `x = a if c else b` (one spelling for a two-way choice of a value)"""
+        for parent in [node] + [n for n in _own_nodes(node) if not isinstance(n, (ast.FunctionDef, ast.AsyncFunctionDef, ast.ClassDef, ast.Lambda))]:
+            for field in ("body", "orelse", "finalbody"):
+                stmts = getattr(parent, field, None)
+                if not isinstance(stmts, list):
+                    continue
+                for i, s_ in enumerate(stmts):
+                    if not (isinstance(s_, ast.If) and len(s_.body) == 1 and len(s_.orelse) == 1):
+                        continue
+                    a, b = s_.body[0], s_.orelse[0]
+                    if not (isinstance(a, ast.Assign) and isinstance(b, ast.Assign) and len(a.targets) == 1 and len(b.targets) == 1 and isinstance(a.targets[0], ast.Name) and isinstance(b.targets[0], ast.Name) and a.targets[0].id == b.targets[0].id):
+                        continue
+                    new = ast.Assign(targets=[ast.Name(id=a.targets[0].id, ctx=ast.Store())], value=ast.IfExp(test=s_.test, body=a.value, orelse=b.value))
+                    stmts[i] = ast.copy_location(new, s_)
+                    ast.fix_missing_locations(stmts[i])
+                    self.log.append(f"{q}: if/else assignment of {a.targets[0].id} written as a conditional expression")
+
+    def _mutation_free(self, node, stmts, i, v) -> bool:
+        """between the binding stmts[i] of a pure-expression local v and its uses nothing can change what the
+        expression reads: conservatively, the statements from the binding to the last use (within the same block)
+        contain no call except pure ones and gate/`append`-free code is not required - we only demand that they do
+        not store to any attribute/subscript and do not call methods on the names the expression reads"""
+        e = stmts[i].value
+        reads = {n.id for n in ast.walk(e) if isinstance(n, ast.Name)}
+        last = i
+        for k in range(i + 1, len(stmts)):
+            if any(isinstance(n, ast.Name) and n.id == v for n in ast.walk(stmts[k])):
+                last = k
+        for k in range(i + 1, last + 1):
+            for n in ast.walk(stmts[k]):
+                if isinstance(n, (ast.Attribute, ast.Subscript)) and isinstance(n.ctx, (ast.Store, ast.Del)):
+                    base = n
+                    while isinstance(base, (ast.Attribute, ast.Subscript)):
+                        base = base.value
+                    if isinstance(base, ast.Name) and base.id in reads:
+                        return False
+                if isinstance(n, ast.Call) and isinstance(n.func, ast.Attribute) and n.func.attr not in PURE_METHODS:
+                    base = n.func.value
+                    while isinstance(base, (ast.Attribute, ast.Subscript)):
+                        base = base.value
+                    if isinstance(base, ast.Name) and base.id in reads:
+                        return False
+        return True
+
     def _uses_precede_stores(self, node, v: str, paths: List[str]) -> bool:
         order = {id(n): k for k, n in enumerate(_preorder(node))}
         parents = {}
@@ -609,7 +688,7 @@ class ModuleNormalizer:
                             return True
                     if v in frozen or v in params or len(stores.get(v, [])) != 1:
                         continue
-                    if not _simple_arg(e) and not isinstance(e, ast.Constant):
+                    if not _simple_arg(e) and not isinstance(e, ast.Constant) and not (_pure_expr(e) and self._mutation_free(node, stmts, i, v)):
                         # single-use temporary consumed by the very next statement
                         loads = [n for n in ast.walk(node) if isinstance(n, ast.Name) and n.id == v and isinstance(n.ctx, ast.Load)]
                         if len(loads) == 1 and i + 1 < len(stmts) and any(n is loads[0] for n in ast.walk(stmts[i + 1])) and not isinstance(stmts[i + 1], (ast.For, ast.While, ast.If, ast.With, ast.Try, ast.FunctionDef)) and not _inside_nested_def(stmts[i + 1], loads[0]):
@@ -627,7 +706,8 @@ class ModuleNormalizer:
                     if any(len(stores.get(b, [])) > (0 if b in params else 1) for b in bases):
                         continue
                     txt = ast.unparse(e)
-                    clash = [a for a in attr_stores if a == txt or txt.startswith(a + ".") or txt.startswith(a + "[") or a.startswith(txt + ".")]
+                    paths = [ast.unparse(n) for n in ast.walk(e) if isinstance(n, (ast.Attribute, ast.Subscript))] or [txt]
+                    clash = [a for a in attr_stores for t_ in paths if a == t_ or t_.startswith(a + ".") or t_.startswith(a + "[") or a.startswith(t_ + ".")]
                     if clash and not self._uses_precede_stores(node, v, clash):
                         continue
                     # uses must come after the binding, in the same block or deeper
